@@ -185,7 +185,11 @@ def load_function(qual):
     modname = rel[:-3].replace("/", ".")
     mod = importlib.import_module(modname)
     obj = mod
+    prev = None
     for part in name.split("."):
+        if part.startswith("__") and not part.endswith("__") and prev is not None and not hasattr(obj, part):
+            part = "_%s%s" % (prev.lstrip("_"), part)          # private name mangling
+        prev = part
         obj = getattr(obj, part)
     return obj
 
